@@ -1621,6 +1621,146 @@ impl Part for LongHistories {
     }
 }
 
+
+// ------------------------------------------------------------------------------------------------
+// E3h: object reuse. Every other part deserializes fresh key objects for each call; here ONE set of
+// key / encapsulated-key / mode objects lives through a whole sequence of operations, in every order
+// ------------------------------------------------------------------------------------------------
+
+const RU_OPS: [&str; 9] = [
+    "setup_receiver(Base, enc1)", "setup_receiver(Base, enc2)", "setup_receiver(Auth(pkS), enc3)", "setup_sender(Base, pkR)", "setup_sender(Auth(skS, pkS), pkR)", "sk_to_pk(skR)",
+    "decap(skR, enc1)", "serialize skR, pkR, pkS, enc1", "setup_receiver(Psk(bundle), enc4)",
+];
+
+fn reuse_case<A: AeadT, D: KdfT, K: KemT>(out: &mut CaseOut, suite: SuiteId, first: usize, depth: usize, seed: u64) {
+    use hpke::{OpModeR, OpModeS, PskBundle};
+    let k = keys(suite.kem, 34_000, seed);
+    let k2 = keys(suite.kem, 34_001, seed);
+    let info = bytes(Fill::Mix, 8, 34_000, seed);
+    let psk = bytes(Fill::Mix, 32, 34_002, seed);
+    let psk_id = bytes(Fill::Mix, 6, 34_003, seed);
+    let m_base = mode_spec(Mode::Base, &k, b"", b"");
+    let m_auth = mode_spec(Mode::Auth, &k, b"", b"");
+    let m_psk = mode_spec(Mode::Psk, &k, &psk, &psk_id);
+    // R1: everything each operation must return, independent of order
+    let (enc1, c1) = r1_setup_s(suite, &m_base, &k.pk_r, &info, &k.ikm_e).expect("R1");
+    let (enc2, c2) = r1_setup_s(suite, &m_base, &k.pk_r, &info, &k2.ikm_e).expect("R1");
+    let (enc3, c3) = r1_setup_s(suite, &m_auth, &k.pk_r, &info, &k2.ikm_e).expect("R1");
+    let (enc4, c4) = r1_setup_s(suite, &m_psk, &k.pk_r, &info, &k.ikm_e).expect("R1");
+    let ex = |c: &r1::Ctx| c.export(b"reuse", 24).unwrap();
+    let ss1 = suite.kem.decap(&enc1, &k.sk_r, None).expect("R1 decap");
+    let want: Vec<Vec<u8>> = vec![
+        ex(&c1), ex(&c2), ex(&c3), [enc1.clone(), ex(&c1)].concat(), [enc3.clone(), ex(&c3)].concat(), k.pk_r.clone(), ss1,
+        [k.sk_r.clone(), k.pk_r.clone(), k.pk_s.clone(), enc1.clone()].concat(), ex(&c4),
+    ];
+    let n = RU_OPS.len();
+    let mut stack: Vec<Vec<usize>> = vec![vec![first]];
+    while let Some(path) = stack.pop() {
+        // the objects of this history
+        let objs = guard(|| {
+            Ok((
+                K::PrivateKey::from_bytes(&k.sk_r)?, K::PublicKey::from_bytes(&k.pk_r)?, K::PrivateKey::from_bytes(&k.sk_s)?, K::PublicKey::from_bytes(&k.pk_s)?,
+                K::EncappedKey::from_bytes(&enc1)?, K::EncappedKey::from_bytes(&enc2)?, K::EncappedKey::from_bytes(&enc3)?, K::EncappedKey::from_bytes(&enc4)?,
+            ))
+        });
+        let (sk_r, pk_r, sk_s, pk_s, e1, e2, e3, e4) = match objs {
+            Obs::Ok(x) => x,
+            o => {
+                out.fail(format!("deserializing the fixture keys: {}", o.map(|_| ()).class()));
+                return;
+            }
+        };
+        let bundle = PskBundle::new(&psk, &psk_id).expect("bundle");
+        let mode_r_base = OpModeR::<K>::Base;
+        let mode_r_auth = OpModeR::<K>::Auth(pk_s.clone());
+        let mode_r_psk = OpModeR::<K>::Psk(bundle);
+        let mode_s_base = OpModeS::<K>::Base;
+        let mode_s_auth = OpModeS::<K>::Auth((sk_s.clone(), pk_s.clone()));
+        let export_r = |c: AeadCtxR<A, D, K>| {
+            let mut o = vec![0u8; 24];
+            c.export(b"reuse", &mut o).map(|_| o)
+        };
+        let mut last_got = Obs::Ok(vec![]);
+        for &op in &path {
+            last_got = guard(|| match op {
+                0 => export_r(hpke::setup_receiver::<A, D, K>(&mode_r_base, &sk_r, &e1, &info)?),
+                1 => export_r(hpke::setup_receiver::<A, D, K>(&mode_r_base, &sk_r, &e2, &info)?),
+                2 => export_r(hpke::setup_receiver::<A, D, K>(&mode_r_auth, &sk_r, &e3, &info)?),
+                3 | 4 => {
+                    let (m, script) = if op == 3 { (&mode_s_base, &k.ikm_e) } else { (&mode_s_auth, &k2.ikm_e) };
+                    let (enc, c) = hpke::setup_sender::<A, D, K, _>(m, &pk_r, &info, &mut ScriptRng::new(script))?;
+                    let mut o = vec![0u8; 24];
+                    c.export(b"reuse", &mut o)?;
+                    Ok([enc.to_bytes().to_vec(), o].concat())
+                }
+                5 => Ok(K::sk_to_pk(&sk_r).to_bytes().to_vec()),
+                6 => Ok(K::decap(&sk_r, None, &e1)?.0.to_vec()),
+                7 => Ok([sk_r.to_bytes().to_vec(), pk_r.to_bytes().to_vec(), pk_s.to_bytes().to_vec(), e1.to_bytes().to_vec()].concat()),
+                _ => export_r(hpke::setup_receiver::<A, D, K>(&mode_r_psk, &sk_r, &e4, &info)?),
+            });
+        }
+        out.transitions += 1;
+        out.states += 1;
+        let last = *path.last().unwrap();
+        if last_got != Obs::Ok(want[last].clone()) {
+            let names: Vec<&str> = path.iter().map(|o| RU_OPS[*o]).collect();
+            out.fail(format!("{}: operations [{}] on ONE set of key / mode objects: the last one returns {} instead of R1's value for it in isolation", suite.name(), names.join(" ; "), last_got.class()));
+            if out.mismatches.len() > 5 {
+                return;
+            }
+        }
+        if path.len() < depth {
+            for o in 0..n {
+                let mut q = path.clone();
+                q.push(o);
+                stack.push(q);
+            }
+        }
+    }
+}
+
+#[derive(Clone, Debug, Serialize, Deserialize)]
+struct ReuseCase {
+    suite: usize,
+    first: usize,
+    depth: usize,
+}
+
+struct ObjectReuse;
+
+impl Part for ObjectReuse {
+    type Case = ReuseCase;
+    fn name(&self) -> String {
+        "E3h-object-reuse-histories".into()
+    }
+    fn rule(&self) -> String {
+        "ONE set of objects - recipient private and public key, sender identity pair, four encapsulated keys, the OpModeR / OpModeS / PskBundle values - is created once and then used by EVERY sequence of up to `depth` operations from {setup_receiver (Base with two different enc, Auth, Psk), setup_sender (Base, Auth), sk_to_pk, decap, serialization of all of them}; the last operation of every sequence must return R1's value for that operation in isolation (an object that remembers something from an earlier call, or is changed by being used, shows here)".into()
+    }
+    fn bound(&self, cfg: &Cfg) -> String {
+        format!("all sequences of length <= {} over {} operations, 2 suites (X25519, P-256)", if cfg.tier.thorough() { 4 } else { 3 }, RU_OPS.len())
+    }
+    fn enumerate(&self, cfg: &Cfg) -> Vec<ReuseCase> {
+        let mut v = vec![];
+        for suite in 0..2 {
+            for first in 0..RU_OPS.len() {
+                v.push(ReuseCase { suite, first, depth: if cfg.tier.thorough() { 4 } else { 3 } });
+            }
+        }
+        v
+    }
+    fn run(&self, cfg: &Cfg, c: &ReuseCase) -> CaseOut {
+        let mut out = CaseOut::new();
+        out.nontrivial = true;
+        out.outcome = format!("suite{}", c.suite);
+        if c.suite == 0 {
+            reuse_case::<ChaCha20Poly1305, HkdfSha256, X25519HkdfSha256>(&mut out, ALPHA, c.first, c.depth, cfg.seed);
+        } else {
+            reuse_case::<AesGcm128, HkdfSha512, DhP256HkdfSha256>(&mut out, BETA, c.first, c.depth, cfg.seed);
+        }
+        out
+    }
+}
+
 fn main() {
     let a: Vec<String> = std::env::args().collect();
     if a.len() > 4 && a[1] == "--longrun" {
@@ -1749,6 +1889,8 @@ fn main() {
             replay_part(&e3a, &cfg, &v["case"])
         } else if v["part"].as_str() == Some(&pairs.name()) {
             replay_part(&pairs, &cfg, &v["case"])
+        } else if v["part"].as_str() == Some(&ObjectReuse.name()) {
+            replay_part(&ObjectReuse, &cfg, &v["case"])
         } else if v["part"].as_str() == Some(&LongHistories.name()) {
             replay_part(&LongHistories, &cfg, &v["case"])
         } else if v["part"].as_str() == Some(&FirstCalls { len3_suites: 3 }.name()) {
@@ -1787,6 +1929,11 @@ fn main() {
     if want(&fc.name()) {
         let r = run_part(&fc, &cfg);
         eprintln!("  part {}: cases {} transitions {} violating {} ({:.1}s)", r.name, r.run, r.transitions, r.violations.len(), r.wall_s);
+        reports.push(r);
+    }
+    if want(&ObjectReuse.name()) {
+        let r = run_part(&ObjectReuse, &cfg);
+        eprintln!("  part {}: cases {} sequences {} violating {} ({:.1}s)", r.name, r.run, r.states, r.violations.len(), r.wall_s);
         reports.push(r);
     }
     if want(&LongHistories.name()) {
